@@ -8,7 +8,7 @@
     matcher objects.  So all theorems of props/C12.v hold for the search run with such an enumerator -- this is
     exactly what is assumed about VF2 (and monitored: the ordered result lists are compared on every case). *)
 From Coq Require Import List NArith ZArith Bool Arith Lia Permutation.
-From SK Require Import lib.LGraph lib.Mono model.C12_Model proof.C12_Search.
+From SK Require Import lib.LGraph lib.Mono model.C12_Model proof.C12_Search proof.C12_Proof.
 Import ListNotations.
 
 Section With.
@@ -161,3 +161,65 @@ Proof.
   intros k c _ m. unfold vf2'. rewrite in_app_iff, <- in_rev. tauto.
 Qed.
 End Example_enum.
+
+(* ------------------------------------------------------------------ no mapping is returned twice *)
+Lemma add_new_nodup cands : forall acc acc' f, NoDup acc -> add_new acc cands = (acc', f) -> NoDup acc'.
+Proof.
+  induction cands as [|m r IH]; intros acc acc' f Hn E; simpl in E; [inversion E; now subst|].
+  destruct (seen m acc) eqn:Es; [eapply IH; eauto|].
+  destruct (add_new (acc ++ [m]) r) as [a f'] eqn:Er. inversion E; subst a f.
+  eapply IH; [|exact Er].
+  assert (Hm : ~ In m acc) by (intros I; apply seen_spec in I; congruence).
+  clear -Hn Hm. induction Hn as [|y l Hy Hl IHl]; simpl; [constructor; [intros []|constructor]|].
+  constructor.
+  - intros I. apply in_app_or in I. destruct I as [I|[<-|[]]]; [contradiction|]. apply Hm. now left.
+  - apply IHl. intros I. apply Hm. now right.
+Qed.
+
+Lemma search_loop_nodup nm em mcs pattern host k : forall acc best tried acc' best' tried',
+  NoDup acc -> search_loop nm em mcs pattern host k acc best tried = (acc', best', tried') -> NoDup acc'.
+Proof.
+  induction k as [|k' IH]; intros acc best tried acc' best' tried' Hn E; [simpl in E; inversion E; now subst|].
+  cbn [search_loop] in E.
+  destruct (mcs && negb (best =? 0) && (S k' <? best)); [inversion E; now subst|].
+  destruct (add_new acc (level nm em pattern host (S k'))) as [a f] eqn:Ea.
+  pose proof (add_new_nodup _ _ _ _ Hn Ea) as Hna.
+  destruct f; [destruct mcs; [inversion E; now subst|eapply IH; eauto]|eapply IH; eauto].
+Qed.
+
+Theorem search_results_nodup nm em pattern host mcs : NoDup (fst (fst (search_subgraphs nm em pattern host mcs))).
+Proof.
+  unfold search_subgraphs.
+  destruct (search_loop nm em mcs pattern host (Nat.min (n_nodes pattern) (n_nodes host)) [] 0 0) as [[acc best] tr] eqn:E.
+  cbn [fst]. pose proof (search_loop_nodup _ _ _ _ _ _ _ _ _ _ _ _ (NoDup_nil _) E) as Hn.
+  eapply Permutation_NoDup; [apply Permutation_sym, sort_results_perm|].
+  destruct (mcs && negb (best =? 0)); [now apply NoDup_filter|exact Hn].
+Qed.
+
+Lemma map_invert_nodup (l : list mapping) : NoDup l -> NoDup (map invert_mapping l).
+Proof.
+  induction 1 as [|m l Hm Hl IH]; simpl; constructor; [|exact IH].
+  intros I. apply in_map_iff in I. destruct I as (m' & E & I'). apply Hm.
+  rewrite <- (invert_involutive m), <- E, invert_involutive. exact I'.
+Qed.
+
+Theorem get_mappings_nodup defs prune wc (g1 g2 : graph) mcs d :
+  NoDup (get_mappings d (find_common_subgraph defs prune wc g1 g2 mcs)).
+Proof.
+  destruct (n_nodes (prune_graph prune wc g1) <=? n_nodes (prune_graph prune wc g2)) eqn:Eo.
+  - rewrite (fcs_le defs prune wc g1 g2 mcs Eo). destruct d; cbn [get_mappings r_maps r_pattern_is_g1];
+      try apply map_invert_nodup; apply search_results_nodup.
+  - rewrite (fcs_gt defs prune wc g1 g2 mcs Eo). destruct d; cbn [get_mappings r_maps r_pattern_is_g1];
+      try apply map_invert_nodup; apply search_results_nodup.
+Qed.
+
+Module Example_nodup.
+Import Example_enum.
+(** the level enumerates the mapping {1->12, 2->11} etc. once per k-subset; with the doubled enumerator every mapping is
+    produced twice and the [seen] set removes the copies *)
+Example no_duplicates_nonvacuous :
+  length (get_mappings G1toG2 (find_common_subgraph [9] false 9 ga gb false)) = 8%nat /\
+  NoDup (get_mappings G1toG2 (find_common_subgraph [9] false 9 ga gb false)) /\
+  length (fst (fst (search_subgraphs_with vf2' ga gb false))) = 8%nat.
+Proof. split; [vm_compute; reflexivity|]. split; [apply get_mappings_nodup|vm_compute; reflexivity]. Qed.
+End Example_nodup.
